@@ -2,6 +2,7 @@ package asm
 
 import (
 	"fmt"
+	"math"
 	"strconv"
 	"strings"
 
@@ -183,6 +184,17 @@ func boolLit(old ast.BoolLit) bool {
 	default:
 		panic(fmt.Errorf(`invalid boolean literal; expected "true" or "false", got %q`, text))
 	}
+}
+
+// uint32Lit returns the unsigned integer value corresponding to the given
+// unsigned integer literal, which is required to fit in 32 bits (e.g. the
+// arguments of the allocsize and vscale_range function attributes).
+func uint32Lit(old ast.UintLit) uint64 {
+	x := uintLit(old)
+	if x > math.MaxUint32 {
+		panic(fmt.Errorf("invalid unsigned integer literal %q; expected 32-bit integer", old.Text()))
+	}
+	return x
 }
 
 // uintLit returns the unsigned integer value corresponding to the given
@@ -484,11 +496,11 @@ func (gen *generator) irFuncAttribute(old ast.FuncAttribute) ir.FuncAttribute {
 			Kind: kind,
 		}
 	case *ast.AllocSize:
-		elemSizeIndex := int(uintLit(old.ElemSizeIndex()))
+		elemSizeIndex := int(uint32Lit(old.ElemSizeIndex()))
 		if nElemsIndex, ok := old.NElemsIndex(); ok {
 			return ir.AllocSize{
 				ElemSizeIndex: elemSizeIndex,
-				NElemsIndex:   int(uintLit(nElemsIndex)),
+				NElemsIndex:   int(uint32Lit(nElemsIndex)),
 			}
 		}
 		return ir.AllocSize{
@@ -513,11 +525,11 @@ func (gen *generator) irFuncAttribute(old ast.FuncAttribute) ir.FuncAttribute {
 			Kind: enum.UnwindTableKindNone,
 		}
 	case *ast.VectorScaleRange:
-		min := int(uintLit(old.Min()))
+		min := int(uint32Lit(old.Min()))
 		if max, ok := old.Max(); ok {
 			return ir.VectorScaleRange{
 				Min: min,
-				Max: int(uintLit(max)),
+				Max: int(uint32Lit(max)),
 			}
 		}
 		return ir.VectorScaleRange{
